@@ -885,6 +885,9 @@ func confirmKnown(bin string, kf knownFinding) string {
 
 // runReplay executes a replay file in a fresh child; returns the set of violation signatures.
 func runReplay(bin, path string) (map[string]bool, *Result, string, string) {
+	if abs, err := filepath.Abs(path); err == nil {
+		path = abs // the child runs in another directory
+	}
 	b, err := os.ReadFile(path)
 	if err != nil {
 		return nil, nil, "", err.Error()
